@@ -2,3 +2,5 @@ import PlcProofs.Props.C01
 #print axioms C01.prec_table_is_annexB
 #print axioms C01.climbing_roundtrip
 #print axioms C01.climbing_fuel_monotone
+#print axioms C01.mirror_expression_roundtrip
+#print axioms C01.mirror_reads_any_parenthesisation
